@@ -8,6 +8,7 @@ import (
 	"go/token"
 	"go/types"
 	"sort"
+	"strings"
 	"sync"
 
 	"golang.org/x/tools/go/ssa"
@@ -113,7 +114,11 @@ func (s *sched) runG(g *goroutine, body func()) {
 			return
 		case goexitPanic:
 		case engineFault:
-			i.p.inconclusive("%s", r.msg)
+			st := ""
+			if g.top != nil && !strings.Contains(r.msg, "target stack") {
+				st = "\n  target stack: " + strings.Join(g.top.stack(), " <- ")
+			}
+			i.p.inconclusive("%s%s", r.msg, st)
 			i.p.end(outAbort)
 			return
 		case targetPanic:
